@@ -102,6 +102,23 @@ def run_scen(scen_bin, vchild, cases, scratch, env_extra=None, prefix=None):
     return res
 
 
+def run_timed(cmd, env, timeout):
+    """Run an in-process engine binary with a generous wall-clock limit. Returns (rc, stdout, stderr);
+    rc 124 = the limit fired (the run is then inconclusive, never a pass)."""
+    p = subprocess.Popen(cmd, stdout=subprocess.PIPE, stderr=subprocess.PIPE, env=env, text=True, errors="replace",
+                         start_new_session=True)
+    try:
+        out, err = p.communicate(timeout=timeout)
+        return p.returncode, out, err
+    except subprocess.TimeoutExpired:
+        try:
+            os.killpg(p.pid, 9)  # the engine's own session only
+        except OSError:
+            pass
+        out, err = p.communicate()
+        return 124, out or "", (err or "") + "\nTIMEOUT after %ds" % timeout
+
+
 class Violation:
     __slots__ = ("prop", "key", "msg", "case", "log")
 
@@ -159,6 +176,11 @@ def _worker(args):
     for attempt in range(2):
         retry = []
         if not pending:
+            break
+        if attempt == 1 and len(pending) > 8:
+            # far too many cases hit the watchdog or went missing: systematic, not load
+            stats["inconclusive"] += len(pending)
+            stats.setdefault("inconclusive_cases", []).extend(c.script for c in pending[:3])
             break
         for c, lg in run_scen(scen_bin, vchild, pending, scratch, prefix=opts.get("prefix")):
             if lg.end in ("watchdog", "missing") and attempt == 0:
@@ -287,6 +309,8 @@ def conclude(prop, tier, seed, level, total, viols, t0, rule, min_obs=None, extr
     for k, need in (min_obs or {}).items():
         if obs.get(k, 0) < need:
             inconclusive.append("observed %s=%d < required %d" % (k, obs.get(k, 0), need))
+    if obs.get("harness_timeouts", 0):
+        inconclusive.append("%d engine processes hit their wall-clock limit" % obs["harness_timeouts"])
     if obs.get("model_kernel_disagree", 0):
         inconclusive.append("reference child model and kernel disagree in %d cases (harness problem)"
                             % obs["model_kernel_disagree"])
